@@ -7,7 +7,6 @@ import (
 	"encoding/json"
 	stdflag "flag"
 	"fmt"
-	"math"
 	"net"
 	"reflect"
 	"sort"
@@ -451,7 +450,7 @@ func genText(r *coqfmt.Rng, fi flagInfo) (string, bool) {
 		return genInt(r, false), true
 	case vt == "*flag.float64Value" || vt == "p:float64" || vt == "p:float32":
 		if r.Chance(1, 6) {
-			return coqfmt.Pick(r, []string{"", "x", "1..2", "--1", "1e", "1e400", "1e39", "-4e38"}), true
+			return coqfmt.Pick(r, []string{"", "x", "1..2", "--1", "1e", "1e400", "1361129467683753853853498429727072845824", "-680564733841876926926749214863536422912"}), true // 2^130, -2^129: beyond float32, exact in float64
 		}
 		if vt == "*flag.float64Value" && r.Chance(1, 8) {
 			// std package: a float32 leaf rides on a float64 flag and Value checks the range itself.  The
@@ -463,7 +462,7 @@ func genText(r *coqfmt.Rng, fi flagInfo) (string, bool) {
 		return coqfmt.Pick(r, floatTexts), true
 	case strings.HasSuffix(vt, "Complex128Var") || strings.HasSuffix(vt, "Complex64Var") || vt == "p:complex128" || vt == "p:complex64":
 		if r.Chance(1, 6) {
-			return coqfmt.Pick(r, []string{"", "i", "1+i", "(1+2i", "x", "1e39+1i", "1-4e38i"}), true
+			return coqfmt.Pick(r, []string{"", "i", "1+i", "(1+2i", "x", "1361129467683753853853498429727072845824+1i", "1-680564733841876926926749214863536422912i"}), true
 		}
 		return coqfmt.Pick(r, complexTexts), true
 	case vt == "*flag.durationValue" || vt == "p:duration":
@@ -508,6 +507,27 @@ func genText(r *coqfmt.Rng, fi flagInfo) (string, bool) {
 		return rty.GenMapText(r, el, el, bad), true
 	}
 	return "", false
+}
+
+// srcTagCombos: does some field carry only this package's tag / only the other package's / both?
+func srcTagCombos(t reflect.Type, ownKey string) (own, other, both bool) {
+	otherKey := "dialspflag"
+	if ownKey == "dialspflag" {
+		otherKey = "dialsflag"
+	}
+	switch t.Kind() {
+	case reflect.Ptr, reflect.Slice, reflect.Array:
+		return srcTagCombos(t.Elem(), ownKey)
+	case reflect.Struct:
+		for i := 0; i < t.NumField(); i++ {
+			f := t.Field(i)
+			_, a := f.Tag.Lookup(ownKey)
+			_, b := f.Tag.Lookup(otherKey)
+			o1, o2, o3 := srcTagCombos(f.Type, ownKey)
+			own, other, both = own || o1 || (a && !b), other || o2 || (b && !a), both || o3 || (a && b)
+		}
+	}
+	return
 }
 
 func valueSafe(src source, PT reflect.Type) (v reflect.Value, err error, panicked bool) {
